@@ -866,7 +866,11 @@ impl DirectAddrUpdateState {
         task::spawn(
             async move {
                 #[cfg(iroh_verif)]
-                crate::verif_hooks::pause::gate::pass("direct_addr:run-started").await;
+                {
+                    // recorded by the run task itself: a report run really began
+                    crate::verif_hooks::pause::trace::event(|| "task-start".to_string());
+                    crate::verif_hooks::pause::gate::pass("direct_addr:run-started").await;
+                }
                 let fut = token.run_until_cancelled(time::timeout(
                     NET_REPORT_TIMEOUT,
                     net_reporter.get_report(if_state, why.is_major(), inner_token),
@@ -1840,6 +1844,9 @@ impl Actor {
     }
 
     fn re_stun(&mut self, why: UpdateReason) {
+        // the request as seen by the caller of the scheduler, before any scheduling decision
+        #[cfg(iroh_verif)]
+        crate::verif_hooks::pause::trace::event(|| format!("trigger {why:?}"));
         let state = self.local_interfaces_watcher.get();
         self.direct_addr_update_state
             .schedule_run(why, state.into());
